@@ -69,7 +69,7 @@ def r10a(ctx, rep):
         rep.analysed(f)
         uses = uses or A.Uses(f)
         pcs = [c for w in wrappers for c in A.calls_to(f, w)] + \
-            A.calls_to(f, ('re', r'raft_wal::RaftWal::<.*>::append$'))
+            A.calls_to(f, ('re', r'raft_wal::RaftWal(::<.*>)?::append$'))
         ok_edges = set()
         for pc in pcs:
             ok_edges |= A.call_outcome(f, pc, uses).ok
@@ -80,6 +80,15 @@ def r10a(ctx, rep):
                 for u in uses.uses.get(dl, []):
                     if u[0] == 'call' and SHRINK.search(u[3].generic):
                         rb.add(u[3].bb)
+        # `if let Some(ref wal) = self.wal { wal.lock().append(..)?; }` written inline: with no WAL configured there is nothing to persist
+        none_edges = set()
+        for b_ in f.bbs:
+            if b_['cleanup']:
+                continue
+            for st in b_['s']:
+                if st[1][0] == 'disc' and any(x.endswith('RaftNode.wal') for x in A.place_fields(st[1][1])):
+                    none_edges |= A.outcome_edges(f, st[0][0], kind='disc_option', uses=uses).err
+        ok_edges = ok_edges | none_edges
         Rentry = A.reachable(f, [0], cut_edges=ok_edges)
         for k, (bb, line, kind, target) in enumerate(sorted(sites)):
             n += 1
